@@ -1300,7 +1300,7 @@ theorem v2s_step_inv (chk : Bool) (s s' : Option (V2sU0 F)) (rr : List (Datum (Q
         | ok posAddend =>
           rw [hq] at h
           simp only [Except.ok.injEq, Prod.mk.injEq] at h
-          refine ⟨posAddend, dv, ?_, rfl, h.1.symm⟩
+          refine ⟨posAddend, dv, ?_, hsub, h.1.symm⟩
           simp only [trapRunRev, hq]
     | p :: q :: rest, hinv =>
       obtain ⟨pos, dv0, hpos, _, hs⟩ := hinv
@@ -1319,7 +1319,7 @@ theorem v2s_step_inv (chk : Bool) (s s' : Option (V2sU0 F)) (rr : List (Datum (Q
           | ok np =>
             rw [hadd] at h
             simp only [Except.ok.injEq, Prod.mk.injEq] at h
-            refine ⟨np, dv, ?_, rfl, h.1.symm⟩
+            refine ⟨np, dv, ?_, hsub, h.1.symm⟩
             rw [trapRunRev, hpos]; simp only [hq, hadd]
 
 theorem v2s_run_inv (chk : Bool) (evs : List (Output (Quantity F))) (s : Option (V2sU0 F))
@@ -1597,9 +1597,7 @@ theorem p2sSpec_long (chk : Bool) (run : List (Datum (Quantity F))) (r : Option 
   | o :: p :: q :: rest =>
     rw [hrr, p2sSpecRev] at h
     repeat' split at h
-    all_goals first
-      | cases h
-      | (cases h; exact ⟨_, rfl⟩)
+    all_goals (cases h <;> exact ⟨_, rfl⟩)
 
 theorem p2sSpec_time_newest (chk : Bool) (run : List (Datum (Quantity F))) (sp : StateSpec F)
     (h : p2sSpec chk run = .ok (some sp)) :
@@ -1614,9 +1612,7 @@ theorem p2sSpec_time_newest (chk : Bool) (run : List (Datum (Quantity F))) (sp :
     rw [hrr, p2sSpecRev] at h
     refine ⟨o, rfl, ?_⟩
     repeat' split at h
-    all_goals first
-      | cases h
-      | (cases h; exact ⟨rfl, rfl⟩)
+    all_goals (cases h <;> exact ⟨rfl, rfl⟩)
 
 /-- **absent until three samples since the last error** -/
 theorem p2s_absent_until (chk : Bool) (evs : List (Output (Quantity F))) (s : Option (P2sU0 F))
@@ -1657,6 +1653,524 @@ theorem p2s_error_resets (chk : Bool) (s : Option (P2sU0 F)) (x : Err) :
     P2s.step chk s (.error x) = .ok (none, .error x) ∧ P2s.get chk (none : Option (P2sU0 F)) = .ok (.ok none) :=
   ⟨rfl, rfl⟩
 
+/-! ### wrongly dimensioned input panics; correctly dimensioned input never does -/
+
+/-- **wrong unit ⇒ panic**, from any state (checking on) -/
+theorem a2s_wrong_unit_panics (s : Option (A2sU0 F)) (d : Datum (Quantity F)) (h : d.value.unit ≠ ⟨1, -2⟩) :
+    A2s.step true s (.ok (some d)) = .error .dim := by
+  simp [A2s.step, assertEq_true, MILLIMETER_PER_SECOND_SQUARED, DUnit.new, h]
+theorem v2s_wrong_unit_panics (s : Option (V2sU0 F)) (d : Datum (Quantity F)) (h : d.value.unit ≠ ⟨1, -1⟩) :
+    V2s.step true s (.ok (some d)) = .error .dim := by
+  simp [V2s.step, assertEq_true, MILLIMETER_PER_SECOND, DUnit.new, h]
+theorem p2s_wrong_unit_panics (s : Option (P2sU0 F)) (d : Datum (Quantity F)) (h : d.value.unit ≠ ⟨1, 0⟩) :
+    P2s.step true s (.ok (some d)) = .error .dim := by
+  simp [P2s.step, assertEq_true, MILLIMETER, DUnit.new, h]
+
+/-- an invariant preserved by every non-panicking step on good inputs holds after any history of good inputs,
+and the run does not panic -/
+theorem runE_inv {S I : Type} (step : S → I → Except Panic (S × UpdRet)) (Inv : S → Prop) (Good : I → Prop)
+    (hstep : ∀ s e, Inv s → Good e → ∃ s' r, step s e = .ok (s', r) ∧ Inv s')
+    (s : S) (hs : Inv s) (evs : List I) (hg : ∀ e ∈ evs, Good e) :
+    ∃ s', runE step s evs = .ok s' ∧ Inv s' := by
+  induction evs generalizing s with
+  | nil => exact ⟨s, rfl, hs⟩
+  | cons e es ih =>
+    obtain ⟨s1, r, h1, hi1⟩ := hstep s e hs (hg e (by simp))
+    obtain ⟨s2, h2, hi2⟩ := ih s1 hi1 (fun e he => hg e (List.mem_cons_of_mem _ he))
+    exact ⟨s2, by simp only [runE, h1, h2], hi2⟩
+
+/-- `((a + b) / 2) * dt` of two equally dimensioned quantities: succeeds, unit × second -/
+theorem qHalfTimes_unit (m k : Int) (a b : Quantity F) (t : Int) (ha : a.unit = ⟨m, k⟩) (hb : b.unit = ⟨m, k⟩) :
+    ∃ q, qHalfTimes true a b (Quantity.ofTime true t) = .ok q ∧ q.unit = ⟨m, k + 1⟩ := by
+  simp only [qHalfTimes, qadd_true, ha, hb, if_true]
+  refine ⟨_, rfl, ?_⟩
+  simp only [Quantity.mul, Quantity.div, Quantity.ofTime, Quantity.dimensionless, DUnit.mul, DUnit.div, SECOND,
+    DIMENSIONLESS, DUnit.new, if_true, DUnit.mk.injEq]
+  omega
+
+theorem state_new_ok (p v a : Quantity F) (hp : p.unit = ⟨1, 0⟩) (hv : v.unit = ⟨1, -1⟩) (ha : a.unit = ⟨1, -2⟩) :
+    State.new true p v a = .ok ⟨p.value, v.value, a.value⟩ := by
+  simp [State.new, assertEq_true, MILLIMETER, MILLIMETER_PER_SECOND, MILLIMETER_PER_SECOND_SQUARED, DUnit.new,
+    hp, hv, ha]
+
+/-- a history all of whose present samples have unit `u` (as a predicate on single events) -/
+def GoodUnit (u : DUnit) (e : Output (Quantity F)) : Prop := ∀ d, e = .ok (some d) → d.value.unit = u
+
+/-- unit invariant of the acceleration converter's state (checking on) -/
+def A2sUnits (s : Option (A2sU0 F)) : Prop :=
+  ∀ u0, s = some u0 → u0.acc.unit = ⟨1, -2⟩ ∧
+    ∀ u1, u0.u1 = some u1 → u1.vel.unit = ⟨1, -1⟩ ∧ ∀ x, u1.pos = some x → x.unit = ⟨1, 0⟩
+
+theorem a2s_step_units (s : Option (A2sU0 F)) (e : Output (Quantity F)) (hinv : A2sUnits s)
+    (hg : GoodUnit ⟨1, -2⟩ e) : ∃ s' r, A2s.step true s e = .ok (s', r) ∧ A2sUnits s' := by
+  match e with
+  | .error x => exact ⟨none, _, rfl, by intro u0 h; cases h⟩
+  | .ok none => exact ⟨s, _, rfl, hinv⟩
+  | .ok (some d) =>
+    have hd := hg d rfl
+    simp only [A2s.step, assertEq_true, MILLIMETER_PER_SECOND_SQUARED, DUnit.new, hd, if_true]
+    match s, hinv with
+    | none, _ =>
+      refine ⟨_, _, rfl, ?_⟩
+      intro u0 h; cases h
+      exact ⟨hd, by intro u1 h; cases h⟩
+    | some ⟨t0, acc, u1o⟩, hinv =>
+      obtain ⟨hacc, hu1⟩ := hinv _ rfl
+      simp only at hacc hu1
+      obtain ⟨va, hva, hvau⟩ := qHalfTimes_unit 1 (-2) acc d.value (d.time - t0) hacc hd
+      have hvau' : va.unit = ⟨1, -1⟩ := hvau
+      simp only [hva]
+      match u1o, hu1 with
+      | none, _ =>
+        refine ⟨_, _, rfl, ?_⟩
+        intro u0 h; cases h
+        refine ⟨hd, ?_⟩
+        intro u1 h; cases h
+        exact ⟨hvau', by intro x h; cases h⟩
+      | some ⟨vel, poso⟩, hu1 =>
+        obtain ⟨hvel, hpos⟩ := hu1 _ rfl
+        simp only at hvel hpos
+        simp only [qadd_true, hvel, hvau', if_true]
+        obtain ⟨pa, hpa, hpau⟩ := qHalfTimes_unit 1 (-1) vel ⟨vel.value + va.value, ⟨1, -1⟩⟩ (d.time - t0) hvel rfl
+        have hpau' : pa.unit = ⟨1, 0⟩ := hpau
+        simp only [hpa]
+        match poso, hpos with
+        | none, _ =>
+          refine ⟨_, _, rfl, ?_⟩
+          intro u0 h; cases h
+          refine ⟨hd, ?_⟩
+          intro u1 h; cases h
+          refine ⟨rfl, ?_⟩
+          intro x h; cases h; exact hpau'
+        | some oldPos, hpos =>
+          have hop := hpos _ rfl
+          simp only [qadd_true, hop, hpau', if_true]
+          refine ⟨_, _, rfl, ?_⟩
+          intro u0 h; cases h
+          refine ⟨hd, ?_⟩
+          intro u1 h; cases h
+          refine ⟨rfl, ?_⟩
+          intro x h; cases h; rfl
+
+theorem a2s_get_units (s : Option (A2sU0 F)) (hinv : A2sUnits s) : ∃ o, A2s.get true s = .ok o := by
+  match s, hinv with
+  | none, _ => exact ⟨_, rfl⟩
+  | some ⟨t0, acc, none⟩, _ => exact ⟨_, rfl⟩
+  | some ⟨t0, acc, some ⟨vel, none⟩⟩, _ => exact ⟨_, rfl⟩
+  | some ⟨t0, acc, some ⟨vel, some pos⟩⟩, hinv =>
+    obtain ⟨hacc, hu1⟩ := hinv _ rfl
+    obtain ⟨hvel, hpos⟩ := hu1 _ rfl
+    have hp := hpos _ rfl
+    simp only at hacc hvel hp
+    simp only [A2s.get, state_new_ok pos vel acc hp hvel hacc]
+    exact ⟨_, rfl⟩
+
+/-- **correctly dimensioned input never panics** (checking on): neither `update` nor `get`, after any history whose
+present samples are all in mm/s²; all intermediate unit arithmetic is consistent -/
+theorem a2s_right_unit_never_panics (evs : List (Output (Quantity F))) (hu : ∀ e ∈ evs, GoodUnit ⟨1, -2⟩ e) :
+    ∃ s, runE (A2s.step true) A2s.init evs = .ok s ∧ A2sUnits s ∧ ∃ o, A2s.get true s = .ok o := by
+  obtain ⟨s, h, hi⟩ := runE_inv (A2s.step (F := F) true) A2sUnits (GoodUnit ⟨1, -2⟩) a2s_step_units A2s.init
+    (by intro u0 h; cases h) evs hu
+  exact ⟨s, h, hi, a2s_get_units s hi⟩
+
+/-- unit invariant of the velocity converter's state -/
+def V2sUnits (s : Option (V2sU0 F)) : Prop :=
+  ∀ u0, s = some u0 → u0.vel.unit = ⟨1, -1⟩ ∧
+    ∀ u1, u0.u1 = some u1 → u1.acc.unit = ⟨1, -2⟩ ∧ u1.pos.unit = ⟨1, 0⟩
+
+theorem v2s_step_units (s : Option (V2sU0 F)) (e : Output (Quantity F)) (hinv : V2sUnits s)
+    (hg : GoodUnit ⟨1, -1⟩ e) : ∃ s' r, V2s.step true s e = .ok (s', r) ∧ V2sUnits s' := by
+  match e with
+  | .error x => exact ⟨none, _, rfl, by intro u0 h; cases h⟩
+  | .ok none => exact ⟨s, _, rfl, hinv⟩
+  | .ok (some d) =>
+    have hd := hg d rfl
+    simp only [V2s.step, assertEq_true, MILLIMETER_PER_SECOND, DUnit.new, hd, if_true]
+    match s, hinv with
+    | none, _ =>
+      refine ⟨_, _, rfl, ?_⟩
+      intro u0 h; cases h
+      exact ⟨hd, by intro u1 h; cases h⟩
+    | some ⟨t0, vel, u1o⟩, hinv =>
+      obtain ⟨hvel, hu1⟩ := hinv _ rfl
+      simp only at hvel hu1
+      simp only [qsub_true, hd, hvel, if_true]
+      obtain ⟨pa, hpa, hpau⟩ := qHalfTimes_unit 1 (-1) vel d.value (d.time - t0) hvel hd
+      have hpau' : pa.unit = ⟨1, 0⟩ := hpau
+      simp only [hpa]
+      have hacc : (Quantity.div true (⟨d.value.value - vel.value, ⟨1, -1⟩⟩ : Quantity F)
+          (Quantity.ofTime true (d.time - t0))).unit = ⟨1, -2⟩ := rfl
+      match u1o, hu1 with
+      | none, _ =>
+        refine ⟨_, _, rfl, ?_⟩
+        intro u0 h; cases h
+        refine ⟨hd, ?_⟩
+        intro u1 h; cases h
+        exact ⟨hacc, hpau'⟩
+      | some ⟨acc0, pos0⟩, hu1 =>
+        obtain ⟨_, hpos⟩ := hu1 _ rfl
+        simp only at hpos
+        simp only [qadd_true, hpos, hpau', if_true]
+        refine ⟨_, _, rfl, ?_⟩
+        intro u0 h; cases h
+        refine ⟨hd, ?_⟩
+        intro u1 h; cases h
+        exact ⟨hacc, rfl⟩
+
+theorem v2s_get_units (s : Option (V2sU0 F)) (hinv : V2sUnits s) : ∃ o, V2s.get true s = .ok o := by
+  match s, hinv with
+  | none, _ => exact ⟨_, rfl⟩
+  | some ⟨t0, vel, none⟩, _ => exact ⟨_, rfl⟩
+  | some ⟨t0, vel, some ⟨acc, pos⟩⟩, hinv =>
+    obtain ⟨hvel, hu1⟩ := hinv _ rfl
+    obtain ⟨hacc, hpos⟩ := hu1 _ rfl
+    simp only at hacc hvel hpos
+    simp only [V2s.get, state_new_ok pos vel acc hpos hvel hacc]
+    exact ⟨_, rfl⟩
+
+theorem v2s_right_unit_never_panics (evs : List (Output (Quantity F))) (hu : ∀ e ∈ evs, GoodUnit ⟨1, -1⟩ e) :
+    ∃ s, runE (V2s.step true) V2s.init evs = .ok s ∧ V2sUnits s ∧ ∃ o, V2s.get true s = .ok o := by
+  obtain ⟨s, h, hi⟩ := runE_inv (V2s.step (F := F) true) V2sUnits (GoodUnit ⟨1, -1⟩) v2s_step_units V2s.init
+    (by intro u0 h; cases h) evs hu
+  exact ⟨s, h, hi, v2s_get_units s hi⟩
+
+/-- unit invariant of the position converter's state -/
+def P2sUnits (s : Option (P2sU0 F)) : Prop :=
+  ∀ u0, s = some u0 → u0.pos.unit = ⟨1, 0⟩ ∧
+    ∀ u1, u0.u1 = some u1 → u1.vel.unit = ⟨1, -1⟩ ∧ ∀ x, u1.acc = some x → x.unit = ⟨1, -2⟩
+
+theorem p2s_step_units (s : Option (P2sU0 F)) (e : Output (Quantity F)) (hinv : P2sUnits s)
+    (hg : GoodUnit ⟨1, 0⟩ e) : ∃ s' r, P2s.step true s e = .ok (s', r) ∧ P2sUnits s' := by
+  match e with
+  | .error x => exact ⟨none, _, rfl, by intro u0 h; cases h⟩
+  | .ok none => exact ⟨s, _, rfl, hinv⟩
+  | .ok (some d) =>
+    have hd := hg d rfl
+    simp only [P2s.step, assertEq_true, MILLIMETER, DUnit.new, hd, if_true]
+    match s, hinv with
+    | none, _ =>
+      refine ⟨_, _, rfl, ?_⟩
+      intro u0 h; cases h
+      exact ⟨hd, by intro u1 h; cases h⟩
+    | some ⟨t0, pos, u1o⟩, hinv =>
+      obtain ⟨hpos, hu1⟩ := hinv _ rfl
+      simp only at hpos hu1
+      simp only [qsub_true, hd, hpos, if_true]
+      have hvel : (Quantity.div true (⟨d.value.value - pos.value, ⟨1, 0⟩⟩ : Quantity F)
+          (Quantity.ofTime true (d.time - t0))).unit = ⟨1, -1⟩ := rfl
+      match u1o, hu1 with
+      | none, _ =>
+        refine ⟨_, _, rfl, ?_⟩
+        intro u0 h; cases h
+        refine ⟨hd, ?_⟩
+        intro u1 h; cases h
+        exact ⟨hvel, by intro x h; cases h⟩
+      | some ⟨vel0, acc0⟩, hu1 =>
+        obtain ⟨hv0, _⟩ := hu1 _ rfl
+        simp only at hv0
+        simp only [hvel, hv0, if_true]
+        refine ⟨_, _, rfl, ?_⟩
+        intro u0 h; cases h
+        refine ⟨hd, ?_⟩
+        intro u1 h; cases h
+        refine ⟨hvel, ?_⟩
+        intro x h; cases h; rfl
+
+theorem p2s_get_units (s : Option (P2sU0 F)) (hinv : P2sUnits s) : ∃ o, P2s.get true s = .ok o := by
+  match s, hinv with
+  | none, _ => exact ⟨_, rfl⟩
+  | some ⟨t0, pos, none⟩, _ => exact ⟨_, rfl⟩
+  | some ⟨t0, pos, some ⟨vel, none⟩⟩, _ => exact ⟨_, rfl⟩
+  | some ⟨t0, pos, some ⟨vel, some acc⟩⟩, hinv =>
+    obtain ⟨hpos, hu1⟩ := hinv _ rfl
+    obtain ⟨hvel, hacc⟩ := hu1 _ rfl
+    have ha := hacc _ rfl
+    simp only at ha hvel hpos
+    simp only [P2s.get, state_new_ok pos vel acc hpos hvel ha]
+    exact ⟨_, rfl⟩
+
+theorem p2s_right_unit_never_panics (evs : List (Output (Quantity F))) (hu : ∀ e ∈ evs, GoodUnit ⟨1, 0⟩ e) :
+    ∃ s, runE (P2s.step true) P2s.init evs = .ok s ∧ P2sUnits s ∧ ∃ o, P2s.get true s = .ok o := by
+  obtain ⟨s, h, hi⟩ := runE_inv (P2s.step (F := F) true) P2sUnits (GoodUnit ⟨1, 0⟩) p2s_step_units P2s.init
+    (by intro u0 h; cases h) evs hu
+  exact ⟨s, h, hi, p2s_get_units s hi⟩
+
+/-! ### F (continued): shift invariance of the three converters -/
+def shiftA2s (c : Int) (s : Option (A2sU0 F)) : Option (A2sU0 F) :=
+  s.map (fun u0 => ⟨u0.time + c, u0.acc, u0.u1⟩)
+def shiftV2s (c : Int) (s : Option (V2sU0 F)) : Option (V2sU0 F) :=
+  s.map (fun u0 => ⟨u0.time + c, u0.vel, u0.u1⟩)
+def shiftP2s (c : Int) (s : Option (P2sU0 F)) : Option (P2sU0 F) :=
+  s.map (fun u0 => ⟨u0.time + c, u0.pos, u0.u1⟩)
+
+theorem a2s_step_shift (chk : Bool) (c : Int) (s : Option (A2sU0 F)) (e : Output (Quantity F)) :
+    A2s.step chk (shiftA2s c s) (shiftOut c e) = (A2s.step chk s e).map (fun r => (shiftA2s c r.1, r.2)) := by
+  match e with
+  | .error x => rfl
+  | .ok none => rfl
+  | .ok (some d) =>
+    match s with
+    | none =>
+      simp only [A2s.step, shiftOut, shiftDatum, shiftA2s, Option.map]
+      cases DUnit.assertEqAssumeOk chk d.value.unit (MILLIMETER_PER_SECOND_SQUARED chk) <;> rfl
+    | some ⟨t0, acc, u1o⟩ =>
+      have ht : d.time + c - (t0 + c) = d.time - t0 := by omega
+      simp only [A2s.step, shiftOut, shiftDatum, shiftA2s, Option.map, ht]
+      cases DUnit.assertEqAssumeOk chk d.value.unit (MILLIMETER_PER_SECOND_SQUARED chk) with
+      | error q => rfl
+      | ok _ =>
+        simp only
+        cases qHalfTimes chk acc d.value (Quantity.ofTime chk (d.time - t0)) with
+        | error q => rfl
+        | ok va =>
+          simp only
+          match u1o with
+          | none => rfl
+          | some ⟨vel, poso⟩ =>
+            simp only
+            cases Quantity.add chk vel va with
+            | error q => rfl
+            | ok nv =>
+              simp only
+              cases qHalfTimes chk vel nv (Quantity.ofTime chk (d.time - t0)) with
+              | error q => rfl
+              | ok pa =>
+                simp only
+                match poso with
+                | none => rfl
+                | some op =>
+                  simp only
+                  cases Quantity.add chk op pa <;> rfl
+
+theorem v2s_step_shift (chk : Bool) (c : Int) (s : Option (V2sU0 F)) (e : Output (Quantity F)) :
+    V2s.step chk (shiftV2s c s) (shiftOut c e) = (V2s.step chk s e).map (fun r => (shiftV2s c r.1, r.2)) := by
+  match e with
+  | .error x => rfl
+  | .ok none => rfl
+  | .ok (some d) =>
+    match s with
+    | none =>
+      simp only [V2s.step, shiftOut, shiftDatum, shiftV2s, Option.map]
+      cases DUnit.assertEqAssumeOk chk d.value.unit (MILLIMETER_PER_SECOND chk) <;> rfl
+    | some ⟨t0, vel, u1o⟩ =>
+      have ht : d.time + c - (t0 + c) = d.time - t0 := by omega
+      simp only [V2s.step, shiftOut, shiftDatum, shiftV2s, Option.map, ht]
+      cases DUnit.assertEqAssumeOk chk d.value.unit (MILLIMETER_PER_SECOND chk) with
+      | error q => rfl
+      | ok _ =>
+        simp only
+        cases Quantity.sub chk d.value vel with
+        | error q => rfl
+        | ok dv =>
+          simp only
+          cases qHalfTimes chk vel d.value (Quantity.ofTime chk (d.time - t0)) with
+          | error q => rfl
+          | ok pa =>
+            simp only
+            match u1o with
+            | none => rfl
+            | some ⟨acc0, pos0⟩ =>
+              simp only
+              cases Quantity.add chk pos0 pa <;> rfl
+
+theorem p2s_step_shift (chk : Bool) (c : Int) (s : Option (P2sU0 F)) (e : Output (Quantity F)) :
+    P2s.step chk (shiftP2s c s) (shiftOut c e) = (P2s.step chk s e).map (fun r => (shiftP2s c r.1, r.2)) := by
+  match e with
+  | .error x => rfl
+  | .ok none => rfl
+  | .ok (some d) =>
+    match s with
+    | none =>
+      simp only [P2s.step, shiftOut, shiftDatum, shiftP2s, Option.map]
+      cases DUnit.assertEqAssumeOk chk d.value.unit (MILLIMETER chk) <;> rfl
+    | some ⟨t0, pos, u1o⟩ =>
+      have ht : d.time + c - (t0 + c) = d.time - t0 := by omega
+      simp only [P2s.step, shiftOut, shiftDatum, shiftP2s, Option.map, ht]
+      cases DUnit.assertEqAssumeOk chk d.value.unit (MILLIMETER chk) with
+      | error q => rfl
+      | ok _ =>
+        simp only
+        cases Quantity.sub chk d.value pos with
+        | error q => rfl
+        | ok dp =>
+          simp only
+          match u1o with
+          | none => rfl
+          | some ⟨vel0, acc0⟩ =>
+            simp only
+            cases Quantity.sub chk (Quantity.div chk dp (Quantity.ofTime chk (d.time - t0))) vel0 <;> rfl
+
+/-- **Shift invariance, converters**: same values, same panics, stored time shifted -/
+theorem a2s_shift_invariant (chk : Bool) (c : Int) (evs : List (Output (Quantity F))) :
+    runE (A2s.step chk) A2s.init (shiftHist c evs) = (runE (A2s.step chk) A2s.init evs).map (shiftA2s c) :=
+  runE_map (A2s.step chk) (shiftA2s c) (shiftOut c) (a2s_step_shift (F := F) chk c) A2s.init evs
+theorem v2s_shift_invariant (chk : Bool) (c : Int) (evs : List (Output (Quantity F))) :
+    runE (V2s.step chk) V2s.init (shiftHist c evs) = (runE (V2s.step chk) V2s.init evs).map (shiftV2s c) :=
+  runE_map (V2s.step chk) (shiftV2s c) (shiftOut c) (v2s_step_shift (F := F) chk c) V2s.init evs
+theorem p2s_shift_invariant (chk : Bool) (c : Int) (evs : List (Output (Quantity F))) :
+    runE (P2s.step chk) P2s.init (shiftHist c evs) = (runE (P2s.step chk) P2s.init evs).map (shiftP2s c) :=
+  runE_map (P2s.step chk) (shiftP2s c) (shiftOut c) (p2s_step_shift (F := F) chk c) P2s.init evs
+
+/-- `get` commutes with the shift: the reported state is identical, its time is shifted -/
+theorem a2s_get_shift (chk : Bool) (c : Int) (s : Option (A2sU0 F)) :
+    A2s.get chk (shiftA2s c s) = (A2s.get chk s).map (shiftOut c) := by
+  match s with
+  | none => rfl
+  | some ⟨t0, acc, none⟩ => rfl
+  | some ⟨t0, acc, some ⟨vel, none⟩⟩ => rfl
+  | some ⟨t0, acc, some ⟨vel, some pos⟩⟩ =>
+    simp only [A2s.get, shiftA2s, Option.map]
+    cases State.new chk pos vel acc <;> rfl
+theorem v2s_get_shift (chk : Bool) (c : Int) (s : Option (V2sU0 F)) :
+    V2s.get chk (shiftV2s c s) = (V2s.get chk s).map (shiftOut c) := by
+  match s with
+  | none => rfl
+  | some ⟨t0, vel, none⟩ => rfl
+  | some ⟨t0, vel, some ⟨acc, pos⟩⟩ =>
+    simp only [V2s.get, shiftV2s, Option.map]
+    cases State.new chk pos vel acc <;> rfl
+theorem p2s_get_shift (chk : Bool) (c : Int) (s : Option (P2sU0 F)) :
+    P2s.get chk (shiftP2s c s) = (P2s.get chk s).map (shiftOut c) := by
+  match s with
+  | none => rfl
+  | some ⟨t0, pos, none⟩ => rfl
+  | some ⟨t0, pos, some ⟨vel, none⟩⟩ => rfl
+  | some ⟨t0, pos, some ⟨vel, some acc⟩⟩ =>
+    simp only [P2s.get, shiftP2s, Option.map]
+    cases State.new chk pos vel acc <;> rfl
+
 end S
+
+/-! ## tier R sanity corollaries: on a linear signal the formulas are exact -/
+section S
+variable {F : Type} [Add F] [Sub F] [Mul F] [Div F] [Neg F] [LT F] [LE F] [BEq F]
+  [DecidableLT F] [DecidableLE F] [FloatLike F]
+
+/-- the number computed by one trapezoid (any checking mode) -/
+theorem trapAddend_value (chk : Bool) (p o : Datum (Quantity F)) (a : Quantity F)
+    (h : trapAddend chk p o = .ok a) :
+    a.value = (FloatLike.ofInt (o.time - p.time) : F) / c1e9 * (p.value.value + o.value.value) / c2 := by
+  simp only [trapAddend] at h
+  cases hs : Quantity.add chk p.value o.value with
+  | error e => rw [hs] at h; cases h
+  | ok sm =>
+    rw [hs] at h; cases h
+    simp only [Quantity.div, Quantity.mul, Quantity.ofTime, Quantity.dimensionless, qadd_value chk _ _ _ hs]
+
+theorem trapRev_none_iff (chk : Bool) (rr : List (Datum (Quantity F))) :
+    trapRev chk rr = .ok none ↔ rr.length < 2 := by
+  have := trapSpec_none_iff chk rr.reverse
+  simpa [trapSpec] using this
+
+/-- with checking off, a run of at least two samples always has a trapezoidal sum -/
+theorem trapSpec_nochk_some (run : List (Datum (Quantity F))) (hlen : 2 ≤ run.length) :
+    ∃ r, trapSpec false run = .ok (some r) := by
+  obtain ⟨r, hr⟩ := trapRev_nochk_ok (F := F) run.reverse
+  cases r with
+  | some r => exact ⟨r, hr⟩
+  | none =>
+    have := (trapSpec_none_iff false run).1 hr
+    omega
+end S
+
+section R
+variable {F : Type} [Field F] [LinearOrder F] [IsStrictOrderedRing F] [FloatLike F] [ExactScalar F]
+
+theorem trapRev_linear (chk : Bool) (m c : F) (tl : List (Datum (Quantity F))) :
+    ∀ (o r l : Datum (Quantity F)),
+      (∀ d ∈ o :: tl, d.value.value = m * ((d.time : F) / 1000000000) + c) →
+      (o :: tl).getLast? = some l → trapRev chk (o :: tl) = .ok (some r) →
+      r.value.value = ((o.time - l.time : Int) : F) / 1000000000 * (l.value.value + o.value.value) / 2 := by
+  induction tl with
+  | nil => intro o r l _ _ h; cases h
+  | cons p rest ih =>
+    intro o r l hlin hl h
+    rw [trapRev] at h
+    cases h1 : trapRev chk (p :: rest) with
+    | error e => rw [h1] at h; cases h
+    | ok prevSum =>
+      rw [h1] at h; simp only at h
+      cases h2 : trapAddend chk p o with
+      | error e => rw [h2] at h; cases h
+      | ok a =>
+        rw [h2] at h; simp only at h
+        have ha := trapAddend_value chk p o a h2
+        simp only [ExactScalar.ofInt_eq, Int.cast_ofNat] at ha
+        rw [List.getLast?_cons_cons] at hl
+        cases prevSum with
+        | none =>
+          have hlen := (trapRev_none_iff chk (p :: rest)).1 h1
+          have hrest : rest = [] := by
+            cases rest with
+            | nil => rfl
+            | cons q r' => simp at hlen; omega
+          subst hrest
+          simp only [List.getLast?_singleton, Option.some.injEq] at hl
+          subst hl
+          cases h
+          exact ha
+        | some r' =>
+          simp only at h
+          cases h3 : Quantity.add chk a r'.value with
+          | error e => rw [h3] at h; cases h
+          | ok v =>
+            rw [h3] at h; cases h
+            have hv := qadd_value chk _ _ _ h3
+            have hih := ih p r' l (fun d hd => hlin d (List.mem_cons_of_mem _ hd)) hl h1
+            have ho := hlin o (by simp)
+            have hp := hlin p (by simp)
+            have hll := hlin l (List.mem_cons_of_mem _ (List.mem_of_getLast? hl))
+            show v.value = _
+            rw [hv, ha, hih, ho, hp, hll]
+            push_cast
+            ring
+
+/-- **Trapezoid rule is exact on linear signals** (this distinguishes it from a rectangle rule): for samples of
+`v(t) = m·t + c` (t in seconds = ns/10⁹) at arbitrary times — increasing or not — the specification's value is
+`(tₙ − t₀)·(v₀ + vₙ)/2`, the exact integral.  Holds in either checking mode whenever the specification yields a
+value (it always does with checking off, `trapSpec_nochk_some`, or with one common unit, `trapRev_unit`). -/
+theorem trapsum_linear_exact (chk : Bool) (m c : F) (run : List (Datum (Quantity F)))
+    (hlin : ∀ d ∈ run, d.value.value = m * ((d.time : F) / 1000000000) + c)
+    (d0 dn r : Datum (Quantity F)) (h0 : run.head? = some d0) (hn : run.getLast? = some dn)
+    (h : trapSpec chk run = .ok (some r)) :
+    r.value.value = ((dn.time - d0.time : Int) : F) / 1000000000 * (d0.value.value + dn.value.value) / 2 ∧
+      r.time = dn.time := by
+  refine ⟨?_, ?_⟩
+  · unfold trapSpec at h
+    rw [← List.head?_reverse] at hn
+    rw [← List.getLast?_reverse] at h0
+    match hrr : run.reverse with
+    | [] => rw [hrr] at h; cases h
+    | o :: tl =>
+      rw [hrr] at h h0 hn
+      simp only [List.head?_cons, Option.some.injEq] at hn
+      subst hn
+      exact trapRev_linear chk m c tl o r d0
+        (fun d hd => hlin d (by rw [← List.mem_reverse, hrr]; exact hd)) h0 h
+  · obtain ⟨dn', h1, h2⟩ := trapSpec_time chk run r h
+    rw [hn] at h1; cases h1; exact h2
+
+/-- **Backward difference is exact on linear signals**: the value is the slope -/
+theorem backdiff_linear_exact (chk : Bool) (m c : F) (pre : List (Datum (Quantity F))) (p o r : Datum (Quantity F))
+    (hp : p.value.value = m * ((p.time : F) / 1000000000) + c)
+    (ho : o.value.value = m * ((o.time : F) / 1000000000) + c)
+    (hne : o.time ≠ p.time)
+    (h : backdiffSpec chk (pre ++ [p, o]) = .ok (some r)) : r.value.value = m ∧ r.time = o.time := by
+  rw [backdiffSpec_snoc] at h
+  cases hs : Quantity.sub chk o.value p.value with
+  | error e => rw [hs] at h; cases h
+  | ok d =>
+    rw [hs] at h; cases h
+    refine ⟨?_, rfl⟩
+    have hd := qsub_value chk _ _ _ hs
+    simp only [Quantity.div, Quantity.ofTime, hd, ho, hp, ExactScalar.ofInt_eq, Int.cast_ofNat]
+    have hne' : ((o.time - p.time : Int) : F) ≠ 0 := by
+      intro h0
+      have : o.time - p.time = 0 := by exact_mod_cast h0
+      omega
+    push_cast at hne' ⊢
+    field_simp
+    ring
+end R
 
 end Rrtk.Thm.C10
